@@ -339,3 +339,15 @@ def run_position_battery(repo, seed=1, count=0):
 @adapter(r":(ensures|monitor)[:\w\.\(\)\*]*\b(cites|positioned|callerrorcites)\b|GengineParserListener\)\.Exit\w+:")
 def position_battery(prop, name, ob, repo, work):
     return run_position_battery(repo)
+
+
+COMPILE_IMPORTS = ("fmt", "math/rand", "github.com/bilibili/gengine/builder", "github.com/bilibili/gengine/context")
+
+
+def run_compile_battery(repo, seed=1, count=300):
+    return run_scenario(repo, battery_source("compile_battery.go.txt", seed, count), "Test_Replay", imports=COMPILE_IMPORTS)
+
+
+@adapter(r":ensures:(agreement|allornothing)|NewGengineErrorListener|no-contract:.*(antlr|Listener)")
+def compile_battery(prop, name, ob, repo, work):
+    return run_compile_battery(repo)
